@@ -12,6 +12,7 @@ import (
 	"unicode"
 
 	"golang.org/x/tools/go/packages"
+	"golang.org/x/tools/go/ssa"
 )
 
 type alphaDef struct {
@@ -684,5 +685,144 @@ func ruleMarkers(c *Ctx) {
 		if k1[0] == k2[0] {
 			c.bad(rule, "fastq/id1 != id2", id1.Pos(), "identical markers for the two header lines")
 		}
+	}
+}
+
+// ruleCaseFold: in the case-insensitive branch of newAlphabet every string
+// that is ranged over or indexed to fill the valid/index tables derives from
+// strings.ToLower/ToUpper of the definition — never from the raw definition,
+// or a definition written in upper or mixed case leaves one case unmapped.
+func ruleCaseFold(c *Ctx, rule string) {
+	fn := c.fn("alphabet", "newAlphabet")
+	pkg := modPath + "/alphabet"
+	var csParam, letters *ssa.Parameter
+	for _, prm := range fn.Params {
+		if b, ok := prm.Type().Underlying().(*types.Basic); ok {
+			if b.Kind() == types.Bool {
+				csParam = prm
+			}
+			if b.Kind() == types.String && letters == nil {
+				letters = prm
+			}
+		}
+	}
+	if csParam == nil || letters == nil {
+		c.und(rule, "alphabet.newAlphabet/params", fn.Pos(), "expected a string definition and a bool caseSensitive parameter")
+		return
+	}
+	// blocks where caseSensitive is known false
+	uncased := func(b *ssa.BasicBlock) bool {
+		for d := b.Idom(); d != nil; d = d.Idom() {
+			ifi, ok := d.Instrs[len(d.Instrs)-1].(*ssa.If)
+			if !ok {
+				continue
+			}
+			e := forcedEdge(d, b)
+			if ifi.Cond == ssa.Value(csParam) && e == 1 {
+				return true
+			}
+			if u, ok := ifi.Cond.(*ssa.UnOp); ok && u.Op == token.NOT && u.X == ssa.Value(csParam) && e == 0 {
+				return true
+			}
+		}
+		return false
+	}
+	var origin func(v ssa.Value, at *ssa.BasicBlock, depth int) string // "folded", "raw", "other"
+	origin = func(v ssa.Value, at *ssa.BasicBlock, depth int) string {
+		if depth > 8 {
+			return "other"
+		}
+		switch x := v.(type) {
+		case *ssa.Parameter:
+			if x == letters {
+				return "raw"
+			}
+			return "other"
+		case *ssa.Slice:
+			return origin(x.X, at, depth+1)
+		case *ssa.Call:
+			if g := x.Call.StaticCallee(); g != nil && g.Pkg != nil && g.Pkg.Pkg.Path() == "strings" && (g.Name() == "ToLower" || g.Name() == "ToUpper") {
+				return "folded"
+			}
+			return "other"
+		case *ssa.BinOp:
+			a, b := origin(x.X, at, depth+1), origin(x.Y, at, depth+1)
+			if a == "raw" || b == "raw" {
+				return "raw"
+			}
+			if a == "folded" && b == "folded" {
+				return "folded"
+			}
+			return "other"
+		case *ssa.UnOp:
+			if x.Op == token.MUL {
+				if name, ok := fieldOf(x.X, pkg, "alpha"); ok {
+					// nearest dominating store to that field
+					var best *ssa.Store
+					for _, bb := range fn.Blocks {
+						for _, ins := range bb.Instrs {
+							st, ok := ins.(*ssa.Store)
+							if !ok {
+								continue
+							}
+							if n, ok := fieldOf(st.Addr, pkg, "alpha"); ok && n == name && bb.Dominates(x.Block()) {
+								if best == nil || best.Block().Dominates(bb) {
+									best = st
+								}
+							}
+						}
+					}
+					if best != nil {
+						return origin(best.Val, at, depth+1)
+					}
+				}
+			}
+			return "other"
+		case *ssa.Phi:
+			res := "folded"
+			for _, e := range x.Edges {
+				if o := origin(e, at, depth+1); o != "folded" {
+					res = o
+				}
+			}
+			return res
+		}
+		return "other"
+	}
+	n := 0
+	for _, b := range fn.Blocks {
+		if !uncased(b) {
+			continue
+		}
+		for _, ins := range b.Instrs {
+			var str ssa.Value
+			what := ""
+			switch x := ins.(type) {
+			case *ssa.Range:
+				if bt, ok := x.X.Type().Underlying().(*types.Basic); ok && bt.Kind() == types.String {
+					str, what = x.X, "ranged over"
+				}
+			case *ssa.Lookup:
+				if bt, ok := x.X.Type().Underlying().(*types.Basic); ok && bt.Kind() == types.String {
+					str, what = x.X, "indexed"
+				}
+			}
+			if str == nil {
+				continue
+			}
+			n++
+			key := fmt.Sprintf("alphabet.newAlphabet/uncased-table-fill#%d", n)
+			switch origin(str, b, 0) {
+			case "folded":
+				c.ok(rule, key, ins.Pos(), "the string "+what+" derives from strings.ToLower/ToUpper of the definition")
+			case "raw":
+				c.bad(rule, key, ins.Pos(), "in the case-insensitive branch the raw definition string is "+what+" to fill the letter tables: for a definition written in upper or mixed case the other case is never marked valid nor indexed (IsValid('a') is false for \"ACGT\")")
+			default:
+				c.und(rule, key, ins.Pos(), "cannot trace the origin of the string "+what)
+			}
+		}
+	}
+	if n == 0 {
+		c.und(rule, "alphabet.newAlphabet/uncased-table-fill", fn.Pos(), "no table-filling loop found in the case-insensitive branch")
 	}
 }
